@@ -72,6 +72,14 @@ def _max_diff_tt(a, b):
                 continue
             for c, d in zip(x.components, y.components):
                 worst = max(worst, abs(c.x - d.x), abs(c.y - d.y))
+            # what the composite DRAWS (its components resolved with their 2x2 and offsets) has to agree as well
+            ca, ea, _ = x.getCoordinates(ga)
+            cb, eb, _ = y.getCoordinates(gb)
+            if list(ea) != list(eb) or len(ca) != len(cb):
+                same_struct = False
+                continue
+            for (x1, y1), (x2, y2) in zip(ca, cb):
+                worst = max(worst, abs(x1 - x2), abs(y1 - y2))
         elif x.numberOfContours > 0 or y.numberOfContours > 0:
             if x.numberOfContours != y.numberOfContours:
                 same_struct = False
